@@ -259,6 +259,13 @@ def run(chk):
         rb = [t for tfn_, t in tries]
         chk.ob("C17-D5.budget", name, "count initialised after the recovery block", all(t.get("l", 0) < tl[0].get("l", 0) for t in rb), fn.loc(tl[0]))
 
+    # ---- D3 (shared with C14-D9): a torn file is noticed at the extraction that hits its end, not at an end marker that is never reached
+    from rules import c14
+    chk.rule("C17-D3.stream", "the stream-reading primitives used by grid.read / CompleteStorage::read throw std::runtime_error as soon as an extraction fails (obligations of C14-D9): "
+                              "every tear position of a checkpoint ends in the exception the recovery handler catches")
+    nps = c14.stream_rule(chk, db, "C17-D3.stream")
+    chk.floor("C17-D3.stream", nps, 6, "instantiated stream-reading primitives")
+
     # ---- D6: restored construction data are rebuilt in place (a by-value range-for would update copies)
     chk.rule("C17-D6.lostwrite", "the code that rebuilds restored construction data (reloadPoints etc.) never writes to a by-value range-for variable: flags of already computed samples would be lost and the samples re-computed after a restart")
     from tsg.flow import element_writes
